@@ -937,7 +937,8 @@ class Summariser:
             return res
         if isinstance(s, ast.Raise):
             vn = self._ev(p, s.exc) if s.exc is not None else None
-            p.exit = ("raise", text(vn) if vn is not None else "<re-raise>")
+            cause = (" from " + text(self._ev(p, s.cause))) if getattr(s, "cause", None) is not None else ""
+            p.exit = ("raise", (text(vn) if vn is not None else "<re-raise>") + cause)
             return [p]
         if isinstance(s, ast.Break):
             p.exit = ("break", None)
